@@ -31,6 +31,16 @@ fn class_u64(c: &str, actual: u64, pos: u64, remaining: u64) -> u64 {
         "max32" => u64::from(u32::MAX),
         "big32" => 1 << 32,
         "max64" => u64::MAX,
+        // sign boundaries: a value reinterpreted as i64 / i32 turns negative (seeks relative to the current position)
+        "sign63" => 1 << 63,
+        "sign63m1" => (1 << 63) - 1,
+        "sign31" => 1 << 31,
+        // small negative values once reinterpreted as i64: minus the size of a block header (17), of a header and one
+        // byte, of an end-of-file block (41), of both (58): a relative seek by such a length lands on a block start
+        "neg17" => 0u64.wrapping_sub(17),
+        "neg18" => 0u64.wrapping_sub(18),
+        "neg41" => 0u64.wrapping_sub(41),
+        "neg58" => 0u64.wrapping_sub(58),
         "gt_remaining" => remaining + 7,
         "toolong" => 65537,
         // below the 512 MiB deserialization limit of the library, far above any small input
@@ -235,6 +245,15 @@ fn run_ops(par: &Par, bytes: &[u8], ops: &[Value], alloc_ceiling: usize, progres
                     let mut export: HashMap<&String, LimitSink> = names.iter().map(|n| (n, LimitSink(0, 64 * bytes.len() + 4096))).collect();
                     match mla::helpers::linear_extract(rd, &mut export) { Ok(()) => "ok".into(), Err(_) => "err".into() }
                 }
+                "linearsub" => {
+                    // a SUBSET: the last listed file only (the blocks of every other file are skipped, not delivered)
+                    let Some(rd) = reader.as_mut() else { return "noreader".into() };
+                    let mut names: Vec<String> = rd.list_files().map(|i| i.cloned().collect()).unwrap_or_default();
+                    names.sort();
+                    let chosen: Vec<String> = names.into_iter().rev().take(1).collect();
+                    let mut export: HashMap<&String, LimitSink> = chosen.iter().map(|n| (n, LimitSink(0, 64 * bytes.len() + 4096))).collect();
+                    match mla::helpers::linear_extract(rd, &mut export) { Ok(()) => "ok".into(), Err(_) => "err".into() }
+                }
                 "repair" => {
                     for unauth in [false, true] {
                         let mut cfg = archive::reader_config(par);
@@ -282,10 +301,28 @@ impl Write for LimitSink {
     fn flush(&mut self) -> std::io::Result<()> { Ok(()) }
 }
 
+static BEAT: std::sync::atomic::AtomicU64 = std::sync::atomic::AtomicU64::new(0);
+fn now_ms() -> u64 {
+    std::time::SystemTime::now().duration_since(std::time::UNIX_EPOCH).map_or(0, |d| d.as_millis() as u64)
+}
+
+/// An operation of the code under test that does not return within 30 s on inputs of a few hundred bytes does not
+/// terminate: the process exits with status 97 and the orchestrator attributes it to the job in progress.
+fn start_watchdog() {
+    BEAT.store(now_ms(), std::sync::atomic::Ordering::Relaxed);
+    std::thread::spawn(|| loop {
+        std::thread::sleep(std::time::Duration::from_millis(500));
+        if now_ms().saturating_sub(BEAT.load(std::sync::atomic::Ordering::Relaxed)) > 30_000 {
+            std::process::exit(97);
+        }
+    });
+}
+
 pub fn main(args: &[String]) {
     let jobs = read_jsonl(&args[0]);
     let start: usize = args.get(3).and_then(|s| s.parse().ok()).unwrap_or(0);
     quiet_panics();
+    start_watchdog();
     let c = consts();
     let mut viol: Vec<Value> = vec![];
     let mut samples: Vec<Value> = vec![];
@@ -297,6 +334,7 @@ pub fn main(args: &[String]) {
         let muts = job["muts"].as_array().unwrap();
         let ops = job["ops"].as_array().unwrap();
         std::fs::write(&progress_path, format!("{ji} build")).ok();
+        BEAT.store(now_ms(), std::sync::atomic::Ordering::Relaxed);
         let (blocks, index) = model_to_blocks(&par, job);
         let mut off = 0usize;
         let mut lb = vec![];
@@ -317,7 +355,10 @@ pub fn main(args: &[String]) {
         let bytes = refcodec::wrap(&stream, &e, &c);
         // ceiling: generous constant (brotli windows, repair buffer) + proportional term
         let ceiling = (96usize << 20) + 64 * bytes.len();
-        let mut prog = |op: &str| { std::fs::write(&progress_path, format!("{ji} {op}")).ok(); };
+        let mut prog = |op: &str| {
+            std::fs::write(&progress_path, format!("{ji} {op}")).ok();
+            BEAT.store(now_ms(), std::sync::atomic::Ordering::Relaxed);
+        };
         let (bad, trace) = run_ops(&par, &bytes, ops, ceiling, &mut prog);
         runs += 1;
         for t in &trace { if t["res"] == "ok" { oks += 1 } else { errs += 1 } }
